@@ -64,6 +64,35 @@ def parseHeader (f : SurferFile) : Except Err SurferHeader := do
   let range ← optOk (f.rangeLine.mapM Tok.asNum)
   pure ⟨shape, ns.1, ns.2, we.1, we.2, range⟩
 
+/-! Primitives the statement-by-statement translation of `_read_surfer_header` / `_check_surfer_integrity` (Gen/IO.lean) is written in. -/
+
+/-- One line of the file as the code sees it: `.strip()` and the tokens of `.split()`. -/
+structure SLine where
+  stripped : String
+  toks : List Tok
+  deriving Repr
+
+/-- `input_file.readline()`: the next line and the rest of the file (`''` at end of file). -/
+def readlineS : List SLine → SLine × List SLine
+  | [] => (⟨"", []⟩, [])
+  | l :: rest => (l, rest)
+/-- `[int(i.strip()) for i in tokens]` (`ValueError` on a token `int()` rejects). -/
+def intsE (t : List Tok) : Except Err (List Int) := optOk (t.mapM Tok.asInt)
+/-- `[float(i.strip()) for i in tokens]`. -/
+def floatsE (t : List Tok) : Except Err (List Rat) := optOk (t.mapM Tok.asNum)
+/-- `a, b = values` (`ValueError` unless there are exactly two). -/
+def unpack2 (l : List Rat) : Except Err (Rat × Rat) :=
+  match l with | [a, b] => .ok (a, b) | _ => .error .valueError
+/-- `array.min()` / `array.max()` (`ValueError` on an empty array). -/
+def minE (v : List Rat) : Except Err Rat := optOk (listMin v)
+def maxE (v : List Rat) : Except Err Rat := optOk (listMax v)
+/-- `numpy.allclose([a, b], other)`: element-wise with broadcasting of a single value; other lengths do not broadcast (`ValueError`). -/
+def allclose2E (a b : Rat) (other : List Rat) : Except Err Bool :=
+  match other with
+  | [lo, hi] => .ok (allclose1 a lo && allclose1 b hi)
+  | [v] => .ok (allclose1 a v && allclose1 b v)
+  | _ => .error .valueError
+
 def maskRow (blank : Rat) (r : List Rat) : List (Option Rat) := r.map fun v => if v ≥ blank then none else some v
 
 /-- Shape of the array `numpy.loadtxt` returns (1-D for a single row). -/
